@@ -1037,3 +1037,20 @@ js_method("get_trial_id_from_study_id_trial_number", returns_kind="int", props=(
     case("ok", ensures=["shared_unchanged(%s)" % RR, "result == j_tid_at(%s, study_id, trial_number)" % RR,
                         "j_has_trial(%s, result) and j_trial(%s, result)._number == trial_number" % (RR, RR)])],
     requires=["trial_number >= 0"])
+
+# --- study attribute setters and readers at the storage level ---------------------------------------------------------------------
+for _attr, _fld in (("user_attr", "user_attrs"), ("system_attr", "system_attrs")):
+    js_method("set_study_%s" % _attr, props=("C01", "C03", "C20"), cases=[
+        case("missing", when="not j_has_study(%s, study_id)" % RR, raises="KeyError", ensures=["shared_unchanged(%s)" % RR]),
+        case("ok", ensures=[
+            "j_others_same(%s, -1)" % RR,
+            "key in j_study(%s, study_id).%s and j_study(%s, study_id).%s[key] is value" % (RR, _fld, RR, _fld),
+            "forall(lambda k: implies(k != key, (k in j_study(%s, study_id).%s) == (k in old(j_study(%s, study_id).%s)) and "
+            "implies(k in j_study(%s, study_id).%s, j_study(%s, study_id).%s[k] is old(j_study(%s, study_id).%s)[k])), k='str')"
+            % (RR, _fld, RR, _fld, RR, _fld, RR, _fld, RR, _fld)])])
+js_method("get_study_directions", returns_kind="list[StudyDirection]", props=("C01", "C03"), cases=[
+    case("missing", when="not j_has_study(%s, study_id)" % RR, raises="KeyError", ensures=["shared_unchanged(%s)" % RR]),
+    case("ok", ensures=["shared_unchanged(%s)" % RR, "result is j_study(%s, study_id).directions" % RR])])
+js_method("get_study_name_from_id", returns_kind="str", props=("C01", "C03"), cases=[
+    case("missing", when="not j_has_study(%s, study_id)" % RR, raises="KeyError", ensures=["shared_unchanged(%s)" % RR]),
+    case("ok", ensures=["shared_unchanged(%s)" % RR, "result == j_study(%s, study_id).study_name" % RR])])
